@@ -230,7 +230,9 @@ def searchLoop (ops : BatOps α B) (eps : α) (cs : StationS α) (vmin desired m
     if bp < maxCv + step ∨ first = true then do
       let (pl', pot) ← searchPass ops cs vmin bp maxCv connected 0 ({ pl with bat := bat0 }, false)
       let needs := decide (eps < desired - ops.soc pl'.bat)
-      if !needs || !pot || decide (step ≤ 0) then .ok pl'
+      -- repaired (fixes/PLW4_search_absorbed_step.diff): `balanced_power + step <= balanced_power` (pinned: `step <= 0`
+      -- — a positive step that is absorbed by the floating-point addition repeated the same pass for ever)
+      if !needs || !pot || decide (bp + step ≤ bp) then .ok pl'
       else searchLoop ops eps cs vmin desired maxCv step bat0 connected fuel (bp + step) false pl'
     else .ok pl
 
